@@ -731,6 +731,11 @@ package s3db
 // row. Safe for every operand (NULL included) and every tree (empty
 // included); the scan starts at a position before which (in scan order)
 // no key of the window lies.
+// ghost: the positions of the constraints that supplied the window's bounds
+//@ ghostvar filterMaxJ int
+//@ ghostvar filterMinJ int
+//@ spec upperOp(o Op) bool = o == OpLT || o == OpLE || o == OpEQ
+//@ spec lowerOp(o Op) bool = o == OpGT || o == OpGE || o == OpEQ
 //@ func (*Cursor).Filter
 //@   requires c != nil && c.t != nil && vtOK(c.t) && ctx != nil
 //@   requires len(idxStr) >= 5 && (idxStr[:4] == "desc" || idxStr[:4] == "asc ")
@@ -738,14 +743,22 @@ package s3db
 //@   requires forall j int :: imp(0 <= j && j < len(val), sqlTyped(val[j]) && imp(typeis(val[j], float64), !isnan(val[j].(float64))))
 //@   requires forall i int :: entryShape(*c.t.Tree.Root.crdt.Mast, i)
 //@   requires forall i int, j int :: sortedAt(*c.t.Tree.Root.crdt.Mast, i, j)
-//@   modifies c.ops, c.operands, c.desc, c.max, c.min, c.ltMax, c.gtMin, c.cursor, c.currentKey, c.currentRow, c.eof
+//@   modifies c.ops, c.operands, c.desc, c.max, c.min, c.ltMax, c.gtMin, c.cursor, c.currentKey, c.currentRow, c.eof, filterMaxJ, filterMinJ
+// the window never excludes a key that satisfies every constraint: each bound of the window IS one of the
+// constraints of that side, with that constraint's own strictness (so a key satisfying it is on the window's side of the bound)
+//@   at store:max#2 ghost filterMaxJ = i
+//@   at store:min#2 ghost filterMinJ = i
+//@   at call:s3db.(*Cursor).Next assert upper-bound-is-a-constraint: imp(c.max != nil, 0 <= filterMaxJ && filterMaxJ < len(c.ops) && c.operands[filterMaxJ] == c.max && upperOp(c.ops[filterMaxJ]) && c.ltMax == (c.ops[filterMaxJ] == OpLT))
+//@   at call:s3db.(*Cursor).Next assert lower-bound-is-a-constraint: imp(c.min != nil, 0 <= filterMinJ && filterMinJ < len(c.ops) && c.operands[filterMinJ] == c.min && lowerOp(c.ops[filterMinJ]) && c.gtMin == (c.ops[filterMinJ] == OpGT))
 //@   at call:s3db.(*Cursor).Next assert asc-start: forall i int :: imp(!c.desc && 0 <= i && i < posOf(c), !aboveMin(c, kAt(snapOf(c), i), false))
 //@   at call:s3db.(*Cursor).Next assert desc-start: forall i int :: imp(c.desc && c.max != nil && posOf(c) < i && i < seqN(snapOf(c)), kcmp(kAt(snapOf(c), i), c.max) >= 0)
 //@   at call:s3db.(*Cursor).Next assert desc-start-unbounded: imp(c.desc && c.max == nil, posOf(c) == seqN(snapOf(c)) - 1)
 //@   at call:s3db.(*Cursor).Next assert desc-start-valid: imp(c.desc, posOf(c) < seqN(snapOf(c)))
 //@   at call:s3db.(*Cursor).Next assert snapshot: snapOf(c) == *c.t.Tree.Root.crdt.Mast
 //@   ensures error-or-positioned: imp(result == nil, c.eof || (c.currentKey != nil && c.currentRow != nil))
-//@   loop 1 modifies contents(c.ops), contents(c.operands), c.max, c.min, c.ltMax, c.gtMin
+//@   loop 1 modifies contents(c.ops), contents(c.operands), c.max, c.min, c.ltMax, c.gtMin, filterMaxJ, filterMinJ
+//@   loop 1 invariant imp(c.max != nil, 0 <= filterMaxJ && filterMaxJ <= rangeindex && filterMaxJ < len(c.ops) && c.operands[filterMaxJ] == c.max && upperOp(c.ops[filterMaxJ]) && c.ltMax == (c.ops[filterMaxJ] == OpLT))
+//@   loop 1 invariant imp(c.min != nil, 0 <= filterMinJ && filterMinJ <= rangeindex && filterMinJ < len(c.ops) && c.operands[filterMinJ] == c.min && lowerOp(c.ops[filterMinJ]) && c.gtMin == (c.ops[filterMinJ] == OpGT))
 //@   loop 1 invariant -1 <= rangeindex && rangeindex < nParts(idxStr[5:]) && len(c.ops) == len(val) && len(c.operands) == len(val) && fresh(c.ops) && fresh(c.operands) && imp(c.max != nil, keyOK(c.max)) && imp(c.min != nil, keyOK(c.min))
 
 // ---------------------------------------------------------------------------
